@@ -180,6 +180,32 @@ let () =
               Printf.printf "%s nt=%s nx=%s nxc=%s\n" (match v with Accept -> "accept" | Reject -> "reject") (string_of_z nt)
                 (String.concat "," (List.map string_of_z (grid_sizes dims))) (String.concat "," (List.map string_of_z nxc))
             end
+          | "validate" ->
+            (* validate kind=<k> n=<n> rof=<r> temp=<q> kbt=<q> bfinf=0|1 explore=0|1  s:<kw>=<text>  l:<kw>=<t1,t2,..>  f:<kw>=on|off *)
+            let scal = ref [] and lists = ref [] and flags = ref [] in
+            Hashtbl.iter (fun k v ->
+                if String.length k > 2 && k.[1] = ':' then begin
+                  let kw = String.sub k 2 (String.length k - 2) in
+                  match k.[0] with
+                  | 's' -> (match tok_of_text v with Some t -> scal := (coq_string kw, t) :: !scal | None -> ())
+                  | 'l' -> lists := (coq_string kw, List.filter_map (fun w -> if w = "" then None else tok_of_text w) (String.split_on_char ',' v)) :: !lists
+                  | 'f' -> flags := (coq_string kw, (v = "on")) :: !flags
+                  | _ -> ()
+                end) tbl;
+            let e = { e_scalars = !scal; e_lists = !lists; e_flags = !flags } in
+            let qof k d = match parse_real (tok_of_text (let v = get k in if v = "-" then d else v)) with QVal q -> q | _ -> { qnum = Z0; qden = XH } in
+            let rec nat_of_int k = if k <= 0 then O else S (nat_of_int (k - 1)) in
+            let n = nat_of_int (int_of_string (let v = get "n" in if v = "-" then "1" else v)) in
+            let x = (match get "kind" with
+                | "colvarx" -> fst (colvarx_validate (qof "temp" "300") e)
+                | "walls" -> fst (walls_validate n e)
+                | "opesx" -> fst (opesx_validate (qof "kbt" "1") (get "bfinf" = "1") (get "explore" = "1") e)
+                | "metax" -> fst (metax_validate n e)
+                | "abfshared" -> fst (abfshared_validate rof e)
+                | "alb" -> fst (alb_validate n e)
+                | "kmoving" -> fst (kmoving_validate rof e)
+                | _ -> { x_err = true; x_bug = true; x_mem = true }) in
+            print_endline (if not x.x_err then "ok" else "input" ^ (if x.x_bug then ",bug" else "") ^ (if x.x_mem then ",memory" else ""))
           | "session" ->
             (* have_cv=.. have_bias=n:t,.. cfgs=<cfg>|<cfg>|RESET|...  with <cfg> = cvs/biases,
                cvs = name:fails:walls,...  (walls 1 = the variable queues a harmonicWalls block "<name>w"),
